@@ -96,7 +96,8 @@ package app
 //@   safety C18
 //@   requires appCtx != nil && appCtx.rewardMaster != nil && appCtx.rewardMaster.Reward != nil && appCtx.rewardMaster.RewardCm != nil && appCtx.rewardMaster.Reward.rewardOptions != nil && appCtx.currencies != nil && appCtx.validators != nil && appCtx.govern != nil && appCtx.balances != nil && appCtx.netwkDelegators != nil && appCtx.netwkDelegators.Deleg != nil && appCtx.netwkDelegators.Rewards != nil   // C18.ctx
 //@   requires appCtx.rewardMaster.RewardCm.calculator != nil && appCtx.rewardMaster.RewardCm.rewardOptions != nil && appCtx.rewardMaster.RewardCm.calculator.options == appCtx.rewardMaster.RewardCm.rewardOptions && appCtx.rewardMaster.RewardCm.calculator.cached.amount != nil && allocated(appCtx.rewardMaster.RewardCm.calculator.cached.amount)   // C18.ctx
-//@   requires appCtx.rewardMaster.RewardCm.rewardOptions.BlockSpeedCalculateCycle != 0                          // C18.div-zero
+//@   requires appCtx.rewardMaster.RewardCm.rewardOptions.BlockSpeedCalculateCycle > 0                           // C18.div-zero
+//@   requires appCtx.rewardMaster.RewardCm.calculator.blockStore != nil && block.Header.Height >= 1 && (forall h int :: { bmHas(appCtx.rewardMaster.RewardCm.calculator.blockStore, h) } 1 <= h && h <= block.Header.Height ==> bmHas(appCtx.rewardMaster.RewardCm.calculator.blockStore, h))   // C18.blockmeta
 //@   requires yCount(appCtx.rewardMaster.RewardCm) == len(appCtx.rewardMaster.RewardCm.rewardOptions.YearBlockRewardShares)   // C18.year-index
 //@   requires appCtx.rewardMaster.RewardCm.calculator.cached.cycleNo > 0 && (appCtx.rewardMaster.RewardCm.calculator.cached.burnedout || @go_rem(wrap64(block.Header.Height - 1), appCtx.rewardMaster.RewardCm.rewardOptions.BlockSpeedCalculateCycle) != 0) ==> cumCacheOK(appCtx.rewardMaster.RewardCm)   // C13.cache-inv
 //@   requires appCtx.rewardMaster.Reward.rewardOptions.RewardInterval != 0                                       // C18.div-zero
